@@ -574,6 +574,7 @@ func astOf(src string, folded bool) (s string) {
 }
 
 func TestC30(t *testing.T) {
+	curProp = "C30"
 	rec := ev.New("C30", "rapid-generated typed expression trees (depth <= 3, <= 8 leaves) over a pool of constants of every type (numbers of all sizes/representations, strings, booleans, dates, objects) with every unary, binary, n-ary and ternary operator, in, Number?/String?/Date?, and the patterns the folder rewrites (x>a and x<b, x is a or x is b, not(a<b), short circuits); compiled as run-time version (all parameters), all-literal, mixed literal/parameter and single-assignment-locals versions; all must give an equal value of the same type or all must fail. Non-trivial: the folded AST of the literal or mixed or locals version differs from the unfolded AST (the folder / PropFold rewrote something); distinct = by the literal source text plus the mixed assignment.")
 	rec.Assumptions = []string{
 		"expressions with an arithmetic chain of >= 3 operands (or nested chains) use only small exactly representable numbers and finite-expansion divisors: the folder's reassociation is exact there; other expressions use the full number range",
